@@ -62,38 +62,29 @@ color_command!(TextColorCommand, _config, _matches, color, {
     color.text_color()
 });
 
-/// The base color of `mix` is given once on the command line: it is read once (from the
-/// argument, from STDIN for '-', or from the color picker) and then mixed with every color.
-#[derive(Default)]
-pub struct MixCommand {
-    base: std::cell::RefCell<Option<Color>>,
-}
+/// The base color of `mix` is the first positional argument: it is read first (from the argument,
+/// from STDIN for '-', or from the color picker) and then mixed with every color.
+pub struct MixCommand;
 
-impl ColorCommand for MixCommand {
-    fn run(
-        &self,
-        out: &mut Output,
-        matches: &ArgMatches,
-        config: &Config,
-        color: &Color,
-    ) -> Result<()> {
-        if self.base.borrow().is_none() {
-            let mut print_spectrum = PrintSpectrum::Yes;
+impl GenericCommand for MixCommand {
+    fn run(&self, out: &mut Output, matches: &ArgMatches, config: &Config) -> Result<()> {
+        let mut print_spectrum = PrintSpectrum::Yes;
 
-            let base = ColorArgIterator::from_color_arg(
-                config,
-                matches.value_of("base").expect("required argument"),
-                &mut print_spectrum,
-            )?;
-            *self.base.borrow_mut() = Some(base);
-        }
-        let base = self.base.borrow().clone().expect("the base color has been read");
+        let base = ColorArgIterator::from_color_arg(
+            config,
+            matches.value_of("base").expect("required argument"),
+            &mut print_spectrum,
+        )?;
 
         let fraction = Fraction::from(1.0 - number_arg(matches, "fraction")?);
 
         let mix = get_mixing_function(matches.value_of("colorspace").expect("required argument"));
 
-        out.show_color(config, &mix(&base, color, fraction))
+        for color in ColorArgIterator::from_args(config, matches.values_of("color"))? {
+            out.show_color(config, &mix(&base, &color?, fraction))?;
+        }
+
+        Ok(())
     }
 }
 
